@@ -100,7 +100,8 @@ class C18(Prop):
             if i % nshards == shard:
                 r = env.rng("C18", seed, j)
                 h = []
-                while len(h) < r.randrange(5, 11):
+                target_len = r.randrange(5, 11) if r.random() > 0.02 else 120
+                while len(h) < target_len:
                     a = r.choice(ALPHABET)
                     if legal(h + [a]):
                         h.append(a)
